@@ -156,14 +156,23 @@ def compilePart (f : Flags) (isBytes : Bool) (value : List Char) : Except SplitE
     | some r => .ok r
     | none => .error .reError
 
-/-- `store` (279-295) -/
+/-- `flags & ~(MATCHBASE | _EXTMATCHBASE)` -/
+def Flags.noBase (f : Flags) : Flags := { f with matchbase := false, extmatchbase := false }
+
+/-- the flags `store` hands to the part compiler: `self.flags & ~(MATCHBASE | _EXTMATCHBASE)`
+    (fix G6: with either flag still set every magic part regex carried the implicit `**/` prefix of
+    MATCHBASE / pathlib's right-anchored match; the walker supplies that prefix itself, as
+    `basePart`) -/
+def SplitCfg.partFlags (c : SplitCfg) : Flags := c.flags.noBase
+
+/-- `store` (279-297) -/
 def GSplit.store (c : SplitCfg) (value : List Char) (l : List GPart) (dirOnly : Bool) :
     Except SplitErr (List GPart) :=
   if !l.isEmpty && value.isEmpty then .ok l else
   let globstarlong := c.globstarlong && value == ['*', '*', '*']
   let globstar := globstarlong || (c.globstar && value == ['*', '*'])
   let magic := GSplit.isMagic c.flags value
-  match (if magic then (compilePart c.flags c.isBytes value).map (PPat.re value) else .ok (PPat.lit value)) with
+  match (if magic then (compilePart c.partFlags c.isBytes value).map (PPat.re value) else .ok (PPat.lit value)) with
   | .error e => .error e
   | .ok v =>
     let part : GPart := ⟨v, magic, globstar, globstarlong, dirOnly, false⟩
